@@ -122,7 +122,13 @@ def helpers(run: Run, rt):
             if fn is None:
                 run.bad('C12.R1', f'{h}[{cp.label}]', 'missing', f'runtime helper {h} is missing', loc=cp.path)
                 continue
-            _ifs_helper(run, cp, fn)
+        try:
+            _ifs_eval(run, cp)
+        except AnalysisError as e_:
+            run.note(f'C12 *IFS[{cp.label}]: decided by structure ({e_.reason[:120]})')
+            for h in IFS:
+                if cp.members.get(h) is not None:
+                    _ifs_helper(run, cp, cp.members[h])
         fn = cp.members.get('_sum_if')
         if fn is None:
             run.bad('C12.R1', f'_sum_if[{cp.label}]', 'missing', 'runtime helper _sum_if is missing', loc=cp.path)
@@ -522,6 +528,107 @@ def _sum_if_eval(run: Run, cp, fn):
         run.check(res.val == want, 'C12.R2', construct, 'wrong-positions',
                   f'SUMIF over {rng} with the criterion ">4" and the target {[getattr(x, "kind", x) if isinstance(x, AV) else x for x in tgt] if not isinstance(tgt[0], list) else tgt} '
                   f'({what}) gives {res.val!r}; the aligned accepted positions add up to {want}', fact=f'-> {res.val!r}', loc=cp.loc(fn))
+
+
+def _ifs_eval(run: Run, cp):
+    """SUMIFS / COUNTIFS / AVERAGEIFS decided by abstract evaluation (engine F) on small concrete ranges: a position takes part
+    exactly when every criterion accepts the cell at that position of its own range; a blank in a criteria range is looked at
+    as 0; a target cell that is 0, blank or empty text is still a cell; ranges of unequal size are refused"""
+    from ..finite import evaluator_for, AV, const_av, Unknown, AbsRaise
+
+    def lst(xs):
+        return AV('list', items=tuple(lst(x) if isinstance(x, list) else (x if isinstance(x, AV) else const_av(x)) for x in xs))
+
+    def num(a):
+        return isinstance(a.val, (int, float)) and not isinstance(a.val, tuple)
+    gt4 = AV('func', val=('native', lambda a: const_av(num(a[0]) and a[0].val > 4)))
+    is_a = AV('func', val=('native', lambda a: const_av(isinstance(a[0].val, str) and a[0].val.lower() == 'a')))
+    eq0 = AV('func', val=('native', lambda a: const_av(num(a[0]) and a[0].val == 0)))
+    anything = AV('func', val=('native', lambda a: const_av(True)))
+    blank = AV('blank', sign='zero')
+    # (helper, target, [(range, criterion)...], expected, what, rule)
+    cases = [
+        ('_sumifs', [1, 2, 3, 4], [([5, 1, 7, 9], gt4)], 8, 'one criterion', 'C12.R2'),
+        ('_sumifs', [1, 2, 3, 4], [([5, 1, 7, 9], gt4), (['a', 'b', 'A', 'x'], is_a)], 4, 'two criteria, both must accept', 'C12.R2'),
+        ('_sumifs', [1, 2, 3, 4], [(['a', 'b', 'A', 'x'], is_a), ([5, 1, 7, 9], gt4)], 4, 'two criteria in the other order', 'C12.R2'),
+        ('_sumifs', [1, 2, 3, 4], [(['x', 'a', 'a', 'a'], is_a), ([5, 9, 1, 1], gt4)], 2, 'a position rejected first stays rejected', 'C12.R2'),
+        ('_sumifs', [[1, 2], [3, 4]], [([[5, 1], [7, 9]], gt4)], 8, 'matrices', 'C12.R2'),
+        ('_sumifs', [1, 2, 3], [([1, 2, 3], gt4)], 0, 'nothing accepted', 'C12.R2'),
+        ('_sumifs', [10, 20], [([blank, 5], eq0)], 10, 'a blank criteria cell is looked at as 0', 'C12.R2'),
+        ('_sumifs', [0, 20, 30], [([5, 5, 1], gt4)], 20, 'a zero in the target', 'C12.R6'),
+        ('_sumifs', [True, 2, 3], [([5, 5, 1], gt4)], 3, 'TRUE in the target adds 1', 'C12.R6'),
+        ('_sumifs', [1, 2, 3, 4], [([5, 1, 7], gt4)], 'refused', 'criteria range shorter than the target', 'C12.R1'),
+        ('_sumifs', [1, 2, 3], [([5, 1, 7, 9], gt4)], 'refused', 'criteria range longer than the target', 'C12.R1'),
+        ('_sumifs', [[1, 2], [3, 4]], [([[5, 1, 7]], gt4)], 'refused', 'matrices of unequal size', 'C12.R1'),
+        ('_sumifs', [[1, 2], [3, 4]], [([5, 1, 7, 9], gt4)], 8, 'a 2x2 target and a 1x4 criteria range have the same size', 'C12.R1'),
+        ('_sumifs', [1, 2, 3, 4], [([5, 1, 7, 9], gt4), (['a', 'b', 'A'], is_a)], 'refused', 'second criteria range too short', 'C12.R1'),
+        ('_averageifs', [0, 10, 20], [([5, 5, 1], gt4)], 5, 'a zero in the target is a cell', 'C12.R6'),
+        ('_averageifs', [2, 4, 9], [([5, 1, 7], gt4)], 5.5, 'one criterion', 'C12.R2'),
+        ('_averageifs', [2, 4, 9, 1], [([5, 1, 7, 9], gt4), (['a', 'a', 'x', 'A'], is_a)], 1.5, 'two criteria', 'C12.R2'),
+        ('_averageifs', [2, 4, 9], [([5, 1], gt4)], 'refused', 'criteria range shorter than the target', 'C12.R1'),
+        ('_countifs', [0, '', blank, 3], [([5, 5, 5, 1], gt4)], 3, 'zero, empty text and blank are cells', 'C12.R6'),
+        ('_countifs', [1, 2, 3, 4], [([5, 1, 7, 9], gt4), (['a', 'b', 'A', 'x'], is_a)], 2, 'two criteria', 'C12.R2'),
+        ('_countifs', [1, 2, 3, 4], [([blank, 0, 7, blank], eq0)], 3, 'a blank criteria cell is looked at as 0', 'C12.R2'),
+        ('_countifs', [1, 2, 3], [([5, 1], gt4)], 'refused', 'criteria range shorter than the target', 'C12.R1'),
+    ]
+    for h, tgt, crits, want, what, rule in cases:
+        fn = cp.members.get(h)
+        if fn is None:
+            continue
+        construct = f'{h}[{cp.label}]/{what}'
+        ev = evaluator_for(cp, max_depth=10)
+        args = [lst(tgt)] + ([anything] if h == '_countifs' else [])
+        for r_, c_ in crits:
+            args += [lst(r_), c_]
+        try:
+            res = ev.call_method(h, args)
+            got = res.val if res.val is not None and not isinstance(res.val, tuple) else repr(res)
+            if isinstance(got, str) and got.startswith('#'):
+                got = 'refused'
+        except Unknown as u:
+            raise AnalysisError(rule, f'{construct}: the abstraction cannot follow the helper ({u})')
+        except AbsRaise as r_:
+            got = 'refused' if want == 'refused' else f'raises {r_.exc}'
+        shown = [(r_, {id(gt4): '">4"', id(is_a): '"a"', id(eq0): '"0"'}[id(c_)]) for r_, c_ in crits]
+        run.check(got == want and type(got) is type(want) or (got == want and isinstance(got, (int, float)) and not isinstance(got, bool)),
+                  rule, construct, 'wrong-selection',
+                  f'{h[1:].upper()} over the target {_show(tgt)} with the criteria {_show(shown)} ({what}) gives {got!r}; expected {want!r}',
+                  fact=f'-> {got!r}', loc=cp.loc(fn))
+
+
+def _show(x):
+    from ..finite import AV
+    if isinstance(x, AV):
+        return 'blank' if x.kind == 'blank' else repr(x)
+    if isinstance(x, (list, tuple)):
+        return '[' + ', '.join(_show(y) for y in x) + ']'
+    return repr(x)
+
+
+def r10_date_operand(run: Run, rt):
+    """the date reading of a criterion operand (engine F on _parse_date_obj): a date-time is taken as it is -- with its time of
+    day --, a number or a missing value is not a date"""
+    from ..finite import evaluator_for, AV, const_av, Unknown, AbsRaise
+    stamp = AV('datetime', origin='a date-time with a time of day')
+    cases = [('a date-time with a time of day', stamp, stamp), ('a number', const_av(5), AV('none')), ('a float', const_av(2.5), AV('none')),
+             ('None', AV('none'), AV('none')), ('TRUE', const_av(True), AV('none'))]
+    for cp in rt.copies():
+        fn = cp.members.get('_parse_date_obj')
+        if fn is None:
+            raise AnalysisError('C12.R10', f'_parse_date_obj[{cp.label}] not found')
+        for what, arg, want in cases:
+            ev = evaluator_for(cp, max_depth=6)
+            construct = f'_parse_date_obj[{cp.label}]/{what}'
+            try:
+                res = ev.call_method('_parse_date_obj', [arg])
+                got = res
+            except Unknown as u:
+                raise AnalysisError('C12.R10', f'{construct}: the abstraction cannot follow the helper ({u})')
+            except AbsRaise as r_:
+                got = f'raises {r_.exc}'
+            run.check(got == want, 'C12.R10', construct, 'date-operand',
+                      f'the date reading of {what} is {got!r}; a date-time operand must be compared as it is (with its time of day) and '
+                      f'a value that is neither a date-time nor a text is not a date: {want!r}', fact=f'-> {got!r}', loc=cp.loc(fn))
 
 
 def _sum_if(run: Run, cp, fn):
@@ -1349,9 +1456,12 @@ def run(run: Run):
     _borrow(run, 'C12.R8', _c08.r4, _src, _grt(_src))
     run.rule('C12.R9', 'a text literal is a wildcard pattern exactly when it has an unescaped ? or *')
     run.guard('C12.R9', r9_pattern_token_language, run, g)
+    run.rule('C12.R10', 'the date reading of a criterion operand keeps a date-time as it is; numbers are not dates')
+    run.guard('C12.R10', r10_date_operand, run, rt)
+    run.floor('C12.R10', 10)
     run.floor('C12.R9', 18)
     run.floor('C12.R8', 50)
-    run.floor('C12.R1', 20)
+    run.floor('C12.R1', 12)
     run.floor('C12.R2', 20)
     run.floor('C12.R3', 15)
     run.floor('C12.R4', 1)
